@@ -75,13 +75,14 @@ def _strategy():
     @st.composite
     def cases(draw):
         s = draw(G.schema_strategy())
-        if draw(st.integers(0, 5)) == 0:
+        multi_base = draw(st.integers(0, 3)) == 0
+        if multi_base:
             # a family with multiple inheritance, so that re-parenting steps can insert bases at
             # several positions of one base list
             s = G.add_multi_base_family(s, draw)
         chain = [G.render(s)]
         edits = []
-        if draw(st.integers(0, 3)) == 0:
+        if not multi_base and draw(st.integers(0, 3)) == 0:
             # a structural family and one of its edits as two steps of the chain
             from vp_harness.gen import families as F
             fam = F.draw_family(draw, s['modules'], editable_only=True)
@@ -93,7 +94,7 @@ def _strategy():
             chain = [G.render(s), G.render(sa), G.render(sb)] if draw(st.booleans()) else [G.render(sa), G.render(sb)]
             edits = [['family:add']] * (len(chain) - 2) + [[f'family:{fam["name"]}:{edit}']]
             s = sb
-        for _ in range(draw(st.integers(0 if edits else 1, 3 if edits else 4))):
+        for _ in range(draw(st.integers(0 if edits else (2 if multi_base else 1), 3 if edits else 4))):
             s, e = G.mutate(s, draw)
             chain.append(G.render(s))
             edits.append(e)
